@@ -39,6 +39,19 @@ def h_split(L, ty, n):
         return 'split'
     L.check('%s: name == part after the separator (or the whole string)' % ty, bytes_eq_term(name, wname))
     L.check('%s: namespace == part before the separator (or none)' % ty, bytes_eq_term(ns, wns or []))
+    # "building from a combined name": the split must also be what the built PURL carries (types that keep the name as it is)
+    if ty in ('cargo', 'gem', 'golang', 'npm', 'maven'):
+        try:
+            r = b_build(I, 'Purl', b)
+        except Panic as e:
+            L.fail('panic: %s' % e.msg)
+            return 'panic'
+        if r.variant == 'Ok':
+            acc = accessors(I, 'Purl', r.fields[0])
+            if len(acc['ns'] or []) != len(wns or []) or len(acc['name']) != len(wname):
+                L.fail('%s: the PURL built from a combined name carries another namespace / name than the split' % ty)
+            else:
+                L.check('%s: built PURL carries the split namespace and name' % ty, b_and(bytes_eq_term(acc['ns'] or [], wns or []), bytes_eq_term(acc['name'], wname)))
     return 'split'
 
 
@@ -176,7 +189,14 @@ def confirm(v, resp):
         else:
             ns, name = b'', s
         got = (hx(resp['parts']['ns']), hx(resp['parts']['name']))
-        return None if got == (ns, name) else '%s combined name %r splits into %r, the documented rule gives %r' % (ty, s, got, (ns, name))
+        if got != (ns, name):
+            return '%s combined name %r splits into %r, the documented rule gives %r' % (ty, s, got, (ns, name))
+        bt = resp.get('built', {})
+        if 'ok' in bt and ty in ('cargo', 'gem', 'golang', 'npm', 'maven'):
+            carried = (hx(bt['ok']['ns']) or b'', hx(bt['ok']['name']))
+            if carried != (ns, name):
+                return '%s: the PURL built from the combined name %r carries %r instead of %r' % (ty, s, carried, (ns, name))
+        return None
     return None
 
 
